@@ -10,7 +10,7 @@ Theorem C09_frame : forall AP parents plain forest argv,
   match AP (sp_actions parents_site_gen parents plain (generated_gen forest)) argv with
   | Err e => sp_known_gen AP None parents plain forest argv = Err e
   | Ok (n, ex) =>
-      post_clean_gen forest (default_keys (sp_actions parents_site_gen parents plain (generated_gen forest))) n = true ->
+      post_clean_gen forest (default_keys_gen (sp_actions parents_site_gen parents plain (generated_gen forest))) n = true ->
       exists n', sp_known_gen AP None parents plain forest argv = Ok (n', ex)
         /\ forall ks, names_disjoint ks forest = true -> restrict ks n' = restrict ks n
   end.
@@ -46,7 +46,7 @@ Theorem C09_collision : forall AP parents plain forest argv n ex w d,
   AP (sp_actions parents_site_gen parents plain (generated_gen forest)) argv = Ok (n, ex) ->
   In (w, d) (top_pairs forest) -> w_suppress w = false ->
   In d (keys n) -> ~ In d (field_dests_gen forest) ->
-  str_in (hd "" (w_dests w)) (default_keys (sp_actions parents_site_gen parents plain (generated_gen forest))) = false ->
+  str_in (hd "" (w_dests w)) (default_keys_gen (sp_actions parents_site_gen parents plain (generated_gen forest))) = false ->
   str_nodupb (subgroup_dests_gen forest) && forallb (fun s => mem s n) (subgroup_dests_gen forest) = true ->
   sp_known_gen AP None parents plain forest argv = Err (Raise "RuntimeError").
 Proof. exact collision. Qed.
@@ -98,6 +98,13 @@ Theorem C09_groups_partial : forall p o,
 Proof. exact (groups_partial group_prefix_fwd_gen group_default_fwd_gen group_handler_fwd_gen). Qed.
 Print Assumptions C09_groups_partial.
 
+(* what the model takes for granted about set-up, read off the source on every run *)
+Theorem C09_ties :
+  setup_once_same_wrappers_gen = true /\ generated_dest_is_field_dest_gen = true /\ config_arg_by_default_gen = false
+  /\ set_defaults_routes_gen = true.
+Proof. exact ties_hold. Qed.
+Print Assumptions C09_ties.
+
 (* the help action is installed exactly when add_help is true, as in argparse *)
 Theorem C09_help : forall add_help, help_installed_gen add_help = add_help.
 Proof. exact help_as_argparse. Qed.
@@ -109,7 +116,7 @@ Theorem C09_meets_spec : forall AP parents plain forest argv declared,
   parents = [] \/ parents_site_gen = PInit ->
   dotted_apart forest = true -> no_unregistered forest = true -> sg_consistent forest = true ->
   match ap_known_gen AP parents plain forest argv with
-  | Ok (n, _) => post_clean_gen forest (default_keys (ap_actions parents plain (generated_gen forest))) n = true
+  | Ok (n, _) => post_clean_gen forest (default_keys_gen (ap_actions parents plain (generated_gen forest))) n = true
   | Err _ => True
   end ->
   spec_run declared (reg_dests_gen forest) (top_dests forest) (sup_top_dests forest) (has_subgroups forest)
@@ -136,6 +143,8 @@ Example C09_nonvacuous :
   /\ sp_known_gen (fun _ _ => Ok (("a", NV "plain") :: raw, [])) None [] (mkact "a" KOpt :: plain) forest [] = Err (Raise "RuntimeError")
   /\ sp_known_gen (fun _ _ => Ok (("a", NV "dict") :: raw, [])) None [] (mkact "a" KDefault :: plain) forest []
      = Ok ([("a", NInst); ("verbose", NV "true"); ("pos1", NV "p")], [])
+  /\ sp_known_gen (fun _ _ => Ok (raw, [])) None [] (mkact "a" KRouted :: plain) forest []
+     = Ok ([("verbose", NV "true"); ("pos1", NV "p"); ("a", NInst)], [])
   /\ sp_known_at PNever AP_toy None [mkact "pp" KOpt] [] [] ["4"] = Ok ([], [])
   /\ argparse_then_post AP_toy None [mkact "pp" KOpt] [] [] ["4"] = Ok ([("pp", NV "4")], [])
   /\ sp_known_at PPreprocess AP_toy None [mkact "ppos" KPos] [mkact "cpos" KPos] [] ["1"; "2"] = Ok ([("cpos", NV "1"); ("ppos", NV "2")], [])
